@@ -10,7 +10,37 @@ import (
 func init() { rt.Register("C13x", jobC13x) }
 
 func jobC13x(c *rt.Ctx) {
-	c.Require("x25519/error", "x25519/value")
+	c.Require("x25519/error", "x25519/value", "x25519/alias")
+	// re-slices of the exported base-point slice: the fast path is selected by pointer identity, the
+	// length contract must hold all the same
+	scal := bytes.Repeat([]byte{0x11}, 32)
+	for lo := 0; lo <= 1; lo++ {
+		for hi := lo; hi <= 32; hi++ {
+			if !c.Take() {
+				continue
+			}
+			pt := Basepoint[lo:hi]
+			var out []byte
+			var err error
+			var pv interface{}
+			func() {
+				defer func() { pv = recover() }()
+				out, err = X25519(scal, pt)
+			}()
+			c.Step(1)
+			c.Class("x25519/alias")
+			c.Distinct(fmt.Sprintf("alias %d %d", lo, hi), true)
+			wantErr := hi-lo != 32
+			bad := pv != nil || (err != nil) != wantErr || (wantErr && out != nil)
+			if !wantErr && !bad {
+				want, _ := X25519(scal, append([]byte{}, Basepoint...))
+				bad = !bytes.Equal(out, want)
+			}
+			if bad {
+				c.Violation(fmt.Sprintf("C13 x25519 basepoint-reslice wantErr=%v", wantErr), fmt.Sprintf("X25519(scalar, Basepoint[%d:%d]): out=%x err=%v panic=%v", lo, hi, out, err, pv), map[string]interface{}{"lo": lo, "hi": hi})
+			}
+		}
+	}
 	for sl := -1; sl <= 40; sl++ {
 		for pl := -1; pl <= 40; pl++ {
 			for base := 0; base < 2; base++ {
